@@ -154,13 +154,21 @@ def mkfs_image(fat_type, size, offset=0, **kw):
 
 # ------------------------------------------------------------------------------------------
 class Model:
-    """The extracted Coq model behind its line protocol."""
+    """The extracted Coq model behind its line protocol.  When the model could not be built (translator failed closed,
+    Coq or OCaml error) the check still runs the implementation against the direct oracles: the object is then a stub
+    whose answers are None and every model comparison is skipped (the broken build is reported by the check driver)."""
 
     def __init__(self):
-        self.p = subprocess.Popen([VMODEL], stdin=subprocess.PIPE, stdout=subprocess.PIPE, text=True, bufsize=1)
+        self.stub = bool(os.environ.get("VERIF_NO_MODEL"))
         self.ncmds = 0
+        if self.stub:
+            self.p = None
+            return
+        self.p = subprocess.Popen([VMODEL], stdin=subprocess.PIPE, stdout=subprocess.PIPE, text=True, bufsize=1)
 
     def cmd(self, line):
+        if self.stub:
+            return [], None
         self.p.stdin.write(line + "\n")
         self.p.stdin.flush()
         self.ncmds += 1
@@ -179,6 +187,8 @@ class Model:
                 raise RuntimeError("model protocol: " + out[:200])
 
     def close(self):
+        if self.stub:
+            return
         try:
             self.p.stdin.close()
             self.p.wait(timeout=5)
@@ -186,6 +196,8 @@ class Model:
             self.p.kill()
 
     def load_bytes(self, image: bytes, tag="img"):
+        if self.stub:
+            return
         path = os.path.join(SCRATCH, f"{tag}.{os.getpid()}.img")
         with open(path, "wb") as f:
             f.write(image)
